@@ -9,7 +9,7 @@ from abc import ABC, abstractmethod
 from collections.abc import Callable
 from dataclasses import MISSING
 from dataclasses import dataclass as as_dataclass
-from typing import Any, ClassVar
+from typing import Any, ClassVar, get_type_hints
 
 from pandas import DataFrame
 from pyiron_snippets.colors import SeabornColors
@@ -51,6 +51,10 @@ class FromManyInputs(Transformer, ABC):
         self.outputs[self._output_name].value = run_output
         return run_output
 
+    def _outputs_to_run_return(self):
+        # A cache hit returns what a run returns: the single output's value
+        return self.outputs[self._output_name].value
+
 
 class ToManyOutputs(Transformer, ABC):
     _input_name: ClassVar[str]  # Mandatory attribute for non-abstract subclasses
@@ -77,6 +81,10 @@ class ToManyOutputs(Transformer, ABC):
             self.outputs[k].value = v
         return run_output
 
+    def _outputs_to_run_return(self):
+        # A cache hit returns what a run returns: a plain dictionary of the outputs
+        return self.outputs.to_value_dict()
+
 
 class _HasLength(Transformer, ABC):
     _length: ClassVar[int]  # Mandatory attribute for non-abstract subclasses
@@ -99,6 +107,11 @@ class ListToOutputs(_HasLength, ToManyOutputs, ABC):
     _input_type_hint: ClassVar[Any] = list
 
     def _on_run(self, input_object: list):
+        if len(input_object) != self._length:
+            raise ValueError(
+                f"{self.full_label} expected a list of length {self._length} but "
+                f"got {len(input_object)} items"
+            )
         return {f"item_{i}": v for i, v in enumerate(input_object)}
 
     @classmethod
@@ -318,7 +331,9 @@ def inputs_to_dataframe_factory(
     )
 
 
-def inputs_to_dataframe(n: int, use_cache: bool = True, *node_args, **node_kwargs):
+def inputs_to_dataframe(
+    n: int, /, *node_args, use_cache: bool = True, **node_kwargs
+):
     """
     Creates and returns an instance of a dynamically generated
     :class:`InputsToDataframe` subclass with a specified number of inputs, each being a
@@ -372,8 +387,15 @@ class DataclassNode(FromManyInputs, ABC):
     @classmethod
     def _build_inputs_preview(cls) -> dict[str, tuple[Any, Any]]:
         # Make a channel for each field
+        try:  # Resolve string annotations (`from __future__ import annotations`)
+            hints = get_type_hints(cls.dataclass)
+        except Exception:
+            hints = {}
         return {
-            name: (f.type, NOT_DATA if f.default is MISSING else f.default)
+            name: (
+                hints.get(name, f.type),
+                NOT_DATA if f.default is MISSING else f.default,
+            )
             for name, f in cls._dataclass_fields().items()
         }
 
@@ -478,7 +500,9 @@ def as_dataclass_node(dataclass: type):
     return cls
 
 
-def dataclass_node(dataclass: type, use_cache: bool = True, *node_args, **node_kwargs):
+def dataclass_node(
+    dataclass: type, /, *node_args, use_cache: bool = True, **node_kwargs
+):
     """
     Builds a dataclass node from a dataclass -- i.e. a node whose inputs correspond
     to dataclass fields and whose output is an instance of the dataclass.
@@ -532,6 +556,6 @@ def dataclass_node(dataclass: type, use_cache: bool = True, *node_args, **node_k
         >>> f(necessary="input as a node kwarg")
         Foo.dataclass(necessary='input as a node kwarg', bar='bar', answer=42, complex_=[1, 2, 3])
     """
-    cls = dataclass_node_factory(dataclass)
+    cls = dataclass_node_factory(dataclass, use_cache)
     cls.preview_io()
     return cls(*node_args, **node_kwargs)
